@@ -65,6 +65,9 @@ M = [
     ('children', '_TaskList.remove_all', 'pjplan/task.py', "        for t in tasks_to_delete:\n            self.remove(t)\n\n        return tasks_to_delete", "        for t in tasks_to_delete:\n            pass\n\n        return tasks_to_delete", 'children-left'),
     ('children', '_TaskList.remove_all', 'pjplan/task.py', "        tasks_to_delete = self(key, **kwargs)\n        if not tasks_to_delete:\n            return _ImmutableTaskList([])\n\n        for t in tasks_to_delete:\n            self.remove(t)\n\n        return tasks_to_delete",
      "        tasks_to_delete = self(key, **kwargs)\n        if not tasks_to_delete:\n            return _ImmutableTaskList([])\n\n        for t in tasks_to_delete:\n            self.remove(t)\n\n        return _ImmutableTaskList([])", 'returns'),
+    ('small', '_to_list', 'pjplan/task.py', "    elif type(val) is Task:\n        return [val]", "    elif type(val) is Task:\n        return []", 'one-element'),
+    ('small', '_check_no_nones_in_list', 'pjplan/task.py', "        if v is None:\n            raise RuntimeError(f\"{name} contains None value\")", "        pass", 'holds-no-None'),
+    ('small', 'Task.estimate.setter', 'pjplan/task.py', "        if value is not None and value < 0:\n            raise RuntimeError(\"Estimate < 0\")", "        if value is not None and value < -1:\n            raise RuntimeError(\"Estimate < 0\")", 'negative'),
     ('closure', 'get_children', 'pjplan/task.py', "                yield ch\n                yield from get_children(ch)", "                yield from get_children(ch)\n                yield ch", 'depth-first'),
     ('closure', 'get_parent', 'pjplan/task.py', "                yield t\n                yield from get_parent(t.parent)", "                yield t", 'ancestors'),
     ('closure', 'get_predecessor', 'pjplan/task.py', "            for pr in t.predecessors:\n                yield pr\n                yield from get_predecessor(pr)", "            for pr in t.predecessors:\n                yield from get_predecessor(pr)", 'every-transitive'),
